@@ -435,7 +435,7 @@ def run_shard(ctx):
     ctx.sample({"alg": "A128KW", "op": "encrypt", "key": kdesc("oct:128", "sig", None, True), "expected": "fails (use)"})
 
 
-REQUIRE = [("calls", 20000, "calls judged"), ("succeeded", 1000, "calls that succeeded (so the monitor is not vacuous)"), ("failed", 5000, "calls that failed"),
+REQUIRE = [("calls", 8000, "calls judged"), ("succeeded", 400, "calls that succeeded (so the monitor is not vacuous)"), ("failed", 2000, "calls that failed"),
            ("confusion_cases", 400, "HMAC/public-key confusion cases"), ("warning_cases", 60, "unsafe key text imports")]
 
 
